@@ -10,6 +10,7 @@ drv_serve ops (one line each):
       peer:<seq>:<0|1>:<val>     the peer answered seq (reply / exception) with payload val
       tick:<d>                   virtual time advanced by d
       run:<t>:<label>[:<obs>…]   thread t executed the line `label` with the observed result
+      chk:<t>:<R|->              the harness saw client t blocked in poll()/on the condition, its result ready or not
     answer: `ok res=… reg=… dc=… now=… bl=…`   or   `reject <index> <token> model=<label[:obs]> pc=<pc>`
   Anything unparsable: `bad-op`.
 -/
@@ -130,6 +131,14 @@ def feed (a : Acc) (tok : String) : Except String Acc :=
     | some d => match step a.s (.tick d) with
       | some s' => .ok { a with s := s' }
       | none => .error "tick"
+    | none => .error "bad-op"
+  | ["chk", t, r] =>
+    -- the harness saw thread t blocked (in poll or on the condition) with readiness flag r of its request
+    match pNat t with
+    | some t =>
+      let rdy := (a.s.cells (a.s.loc t).seq).ready
+      if blocked a.s t ∧ inCall a.s t ∧ (if rdy then "R" else "-") = r then .ok a
+      else .error s!"chk:blocked={blocked a.s t}:ready={rdy} pc={pcName (a.s.loc t).pc}"
     | none => .error "bad-op"
   | "run" :: t :: rest =>
     match pNat t with
